@@ -149,7 +149,7 @@ pub fn observe_reentrancy_on_real_rayon() -> (u64, u64) {
     let total = AtomicU64::new(0);
     let pool = real_rayon::ThreadPoolBuilder::new().num_threads(4).build().expect("pool");
     pool.install(|| {
-        for _ in 0..50 {
+        for _ in 0..200 {
             (0..64u32).into_par_iter().for_each(|_| {
                 total.fetch_add(1, Ordering::Relaxed);
                 let d = DEPTH.with(|c| c.get());
